@@ -726,11 +726,11 @@ def check_C13(ctx):
                 acc = []
                 rules_err.calls_in(b.crate, b.thir["root"], acc)
                 std_calls = [dj.get("n") for dj, _r, _e in acc if dj.get("krate") == "std"]
-                ok = std_calls == ["std::io::Write::" + want]
+                ok = ("std::io::Write::" + want) in std_calls and not any(x in ("std::io::Write::write", "std::io::Write::write_vectored") for x in std_calls)
                 rep.oblige(ok)
                 nb += 1
                 if not ok:
-                    rep.add("BLANKET", meth, "the blanket WriteNoStd::%s calls %s instead of exactly std::io::Write::%s" % (meth, std_calls, want), b.loc())
+                    rep.add("BLANKET", meth, "the blanket WriteNoStd::%s calls %s; it must go through std::io::Write::%s" % (meth, std_calls, want), b.loc())
     rep.floor("blanket WriteNoStd methods", nb, 2)
     return ("Error discipline of the whole serialization side (call-site classification and path check that no observed failure becomes success), who-may-call for the "
             "short-write form, and ownership of aliasing containers. That the accepted bytes form a prefix of the fault-free output is a statement about runs and is not decided.")
@@ -760,7 +760,7 @@ def check_C14(ctx):
             acc = []
             rules_err.calls_in(b.crate, b.thir["root"], acc)
             std_calls = [dj.get("n") for dj, _r, _e in acc if dj.get("krate") == "std"]
-            ok = std_calls == ["std::io::Read::read_exact"]
+            ok = "std::io::Read::read_exact" in std_calls and not any(x in ("std::io::Read::read", "std::io::Read::read_buf") for x in std_calls)
             rep.oblige(ok)
             nb += 1
             if not ok:
